@@ -6,8 +6,21 @@ from . import build
 CACHE = os.environ.get('VERIF_CACHE', '/verif/.cache')
 
 
-def run_jobs(module, jobs, flavour='plain', max_workers=16, timeout=3600, pure=False):
+def _default_timeout():
+    """a worker that does not come back is a finding (a loop in the code under test), not something to wait for:
+    quick-tier jobs take a minute or two, so they get 15 minutes; thorough-tier jobs 4 hours"""
+    if os.environ.get('VERIF_JOB_TIMEOUT'):
+        return int(os.environ['VERIF_JOB_TIMEOUT'])
+    tier = os.environ.get('VERIF_TIER', 'quick')
+    if '--tier' in sys.argv:
+        tier = sys.argv[sys.argv.index('--tier') + 1]
+    return 900 if tier == 'quick' else 4 * 3600
+
+
+def run_jobs(module, jobs, flavour='plain', max_workers=16, timeout=None, pure=False):
     """jobs: list of dicts (JSON-able).  Returns list of (job, result|None, err)."""
+    if timeout is None:
+        timeout = _default_timeout()
     work = os.path.join(CACHE, 'jobs', uuid.uuid4().hex)
     os.makedirs(work)
     env_c = build.env_for(flavour)
@@ -24,7 +37,7 @@ def run_jobs(module, jobs, flavour='plain', max_workers=16, timeout=3600, pure=F
             p = subprocess.run([sys.executable, '-m', module, jf, rf], env=env, cwd='/verif',
                                capture_output=True, text=True, timeout=timeout)
         except subprocess.TimeoutExpired:
-            return job, None, 'timeout'
+            return job, None, 'timeout: the worker did not come back within %d s (the code under test does not terminate?)' % timeout
         if p.returncode != 0 or not os.path.exists(rf):
             return job, None, 'exit %s: %s' % (p.returncode, (p.stderr or p.stdout)[-2000:])
         with open(rf) as fh:
